@@ -41,7 +41,7 @@ claim("C17", "M", "SMT bounded model checking of MIR (z3 + cvc5 portfolio)",
       "Kernel level (narrow): the channel_update acceptance closures of NetworkGraph::update_channel_internal - strictly newer timestamp per direction, htlc_maximum <= known capacity - for all timestamps/flags/amounts, node_announcement ordering (applied iff the node is known and the timestamp is strictly newer, signed and unsigned path alike) and one step of the stale-channel pruning loop (each direction judged by its own timestamp; removal iff a direction is missing and the announcement is old); counterexamples are replayed through the public NetworkGraph API. verify_channel_announcement checks each of the four signatures against its own key (hashing / secp256k1 stubbed, outcome free per signature-key pair). The cryptography itself and order-independence over message sets are outside the claim.",
       "trusted: rustc MIR dump, engine_m, z3")
 claim("C06", "M", "SMT bounded model checking of MIR (z3 + cvc5 portfolio)",
-      "Kernel level: one justice claim is queued for every HTLC output of a revoked counterparty commitment, for the right outpoint and with the right urgency height (one iteration of the claim-building loop of check_spend_counterparty_transaction from an arbitrary loop-head state, replayed on live nodes); the fee and scheduling kernels that justice claims run on - first-attempt fee, RBF bumping (monotone, BIP-125 rules 3/4), package output value, merge, re-bump timer tied to the counterparty CSV height -, completeness of the retained revocation secrets (protocol-order prefix of the top m indices, SHA-256 uninterpreted), the amount claimed from a revoked HTLC output (amount_msat/1000 exactly) and the classification of revoked outputs as malleable packages. Detection of revoked commitments, secret derivation, package construction and witness validity are outside the claim.",
+      "Kernel level: one justice claim is queued for every HTLC output of a revoked counterparty commitment, for the right outpoint and with the right urgency height (one iteration of the claim-building loop of check_spend_counterparty_transaction from an arbitrary loop-head state, replayed on live nodes); the per-transaction filter of a connected block selects a transaction iff it spends a watched output or any of its (<= 2) inputs spends a transaction selected earlier in the same block (closure of filter_block, watched-output lookup and hash sets stubbed, replayed on a live monitor); the fee and scheduling kernels that justice claims run on - first-attempt fee, RBF bumping (monotone, BIP-125 rules 3/4), package output value, merge, re-bump timer tied to the counterparty CSV height -, completeness of the retained revocation secrets (protocol-order prefix of the top m indices, SHA-256 uninterpreted), the amount claimed from a revoked HTLC output (amount_msat/1000 exactly) and the classification of revoked outputs as malleable packages. Detection of revoked commitments, secret derivation, package construction and witness validity are outside the claim.",
       "trusted: rustc MIR dump, engine_m, z3/cvc5; shares its obligations with C07 / C08.d (same code path)")
 K = "Kani 0.68 / CBMC bounded model checking of the compiled code"
 claim("C04", "M", "SMT bounded model checking of MIR (z3 + cvc5 portfolio)",
